@@ -1,0 +1,106 @@
+//go:build verif
+
+package dragonboat
+
+// White-box access for the /verif R21 sub-check (role restrictions at the
+// NodeHost API and event level): the sizes of the request tables of a running
+// node, the state of its raft peer and the log store of a NodeHost. Read-only.
+// Compiled only with -tags verif; add-only.
+
+import (
+	"github.com/lni/dragonboat/v4/internal/raft"
+	"github.com/lni/dragonboat/v4/raftio"
+)
+
+// VerifR21Tables are the sizes of the request tables and queues of one node.
+type VerifR21Tables struct {
+	Proposals      int // requests in pendingProposals (all shards)
+	ProposalQueue  int // entries waiting in incomingProposals
+	ReadQueue      int // requests waiting in incomingReadIndexes
+	ReadBatches    int // ReadIndex batches handed to raft
+	ReadRequests   int // requests in those batches
+	ConfigChange   int // 0 | 1
+	Snapshot       int // 0 | 1
+	LogQuery       int // 0 | 1
+	LeaderTransfer int // 0 | 1
+}
+
+// Total is the number of requests held in any table.
+func (t VerifR21Tables) Total() int {
+	return t.Proposals + t.ProposalQueue + t.ReadQueue + t.ReadBatches + t.ReadRequests +
+		t.ConfigChange + t.Snapshot + t.LogQuery + t.LeaderTransfer
+}
+
+// VerifR21Node is the projection of one node.
+type VerifR21Node struct {
+	Found       bool
+	ReplicaID   uint64
+	IsWitness   bool
+	IsNonVoting bool
+	Initialized bool
+	Tables      VerifR21Tables
+	Peer        raft.VerifR21PeerState
+}
+
+// VerifR21Inspect returns the projection of the node of shardID on nh.
+func VerifR21Inspect(nh *NodeHost, shardID uint64) (r VerifR21Node) {
+	n, ok := nh.getShard(shardID)
+	if !ok {
+		return
+	}
+	r.Found = true
+	r.ReplicaID = n.replicaID
+	r.IsWitness = n.config.IsWitness
+	r.IsNonVoting = n.config.IsNonVoting
+	r.Initialized = n.initialized()
+	for _, s := range n.pendingProposals.shards {
+		s.mu.Lock()
+		r.Tables.Proposals += len(s.pending)
+		s.mu.Unlock()
+	}
+	n.incomingProposals.mu.Lock()
+	r.Tables.ProposalQueue = int(n.incomingProposals.idx)
+	n.incomingProposals.mu.Unlock()
+	n.incomingReadIndexes.mu.Lock()
+	r.Tables.ReadQueue = int(n.incomingReadIndexes.idx)
+	n.incomingReadIndexes.mu.Unlock()
+	n.pendingReadIndexes.mu.Lock()
+	r.Tables.ReadBatches = len(n.pendingReadIndexes.batches)
+	for _, b := range n.pendingReadIndexes.batches {
+		for _, q := range b.requests {
+			if q != nil {
+				r.Tables.ReadRequests++
+			}
+		}
+	}
+	n.pendingReadIndexes.mu.Unlock()
+	n.pendingConfigChange.mu.Lock()
+	if n.pendingConfigChange.pending != nil {
+		r.Tables.ConfigChange = 1
+	}
+	n.pendingConfigChange.mu.Unlock()
+	n.pendingSnapshot.mu.Lock()
+	if n.pendingSnapshot.pending != nil {
+		r.Tables.Snapshot = 1
+	}
+	n.pendingSnapshot.mu.Unlock()
+	n.pendingRaftLogQuery.mu.Lock()
+	if n.pendingRaftLogQuery.mu.pending != nil {
+		r.Tables.LogQuery = 1
+	}
+	n.pendingRaftLogQuery.mu.Unlock()
+	r.Tables.LeaderTransfer = len(n.pendingLeaderTransfer.leaderTransferC)
+	if r.Initialized {
+		n.raftMu.Lock()
+		r.Peer = raft.VerifR21Peer(&n.p)
+		n.raftMu.Unlock()
+	}
+	return
+}
+
+// VerifR21LogDB returns the log store of nh (nil once closed).
+func VerifR21LogDB(nh *NodeHost) raftio.ILogDB {
+	nh.mu.RLock()
+	defer nh.mu.RUnlock()
+	return nh.mu.logdb
+}
